@@ -20,6 +20,7 @@ func TestVerif_C20_UnsealThreshold(t *testing.T) {
 	rec := verifx.NewRecorder("C20", "unseal-threshold", "a Shamir-sealed core with generated n (2..5) and threshold t (2..n) is sealed and fed a generated sequence of shares: valid shares (possibly repeated), shares of an older generation (from before a rekey), shares with a flipped byte, truncated shares, optional progress resets; model = the set of distinct valid current shares supplied since the last reset; oracle: the core is unsealed iff the model holds >= t distinct valid shares (an invalid share among the first t makes the combination fail and resets progress, as documented); it never unseals with fewer than t distinct valid shares; non-trivial = a sequence with a duplicate or invalid share before the threshold was reached")
 	defer rec.Flush()
 	rapid.Check(t, func(rt *rapid.T) {
+		defer recoverWedged(rec)
 		n := 2 + fairIndex(rt, "n", 4)
 		th := 2 + fairIndex(rt, "t", n-1)
 		tc, err := bootCore(t, coreOpts{shamir: true, shares: n, threshold: th, transactional: true})
@@ -130,6 +131,7 @@ func TestVerif_C20_RotateThreshold(t *testing.T) {
 	rec := verifx.NewRecorder("C20", "rotate-threshold", "a core with a Shamir seal (n shares, threshold t) or the stored-key test seal with n recovery shares (threshold t) starts a root-key rotation through sys/rotate/root/init and is fed a generated sequence of shares through sys/rotate/root/update: valid distinct shares, duplicates, corrupted shares, shares with a wrong nonce; model = distinct valid shares since the rotation was (re)initialised; oracle: the rotation completes exactly when the t-th distinct valid share is supplied, never earlier, duplicates and wrong nonces do not count; after an invalid share the harness re-initialises the rotation; non-trivial = a duplicate, corrupted or wrong-nonce share was supplied before completion, or t >= 2")
 	defer rec.Flush()
 	rapid.Check(t, func(rt *rapid.T) {
+		defer recoverWedged(rec)
 		shamir := fairIndex(rt, "seal", 2) == 0
 		n := 1 + fairIndex(rt, "n", 5)
 		th := 1
@@ -248,6 +250,7 @@ func TestVerif_C20_ShareGatedHistory(t *testing.T) {
 	rec := verifx.NewRecorder("C20", "share-gated-history", "a Shamir-sealed core with generated n (2..5) and threshold t (2..n) runs a generated history of: root-token generation attempts (sys/generate-root) fed with made-up shares of the right shape, shares of an older generation, genuine shares, or t-1 genuine plus one made-up share; rekey to new shares with genuine shares; root-key rotation without shares (sys/rotate/root); keyring rotation; writes; then seal or restart on the same storage and unseal attempts first with made-up / outdated share sets, then with the genuine ones; oracle: a root token is produced exactly when t distinct genuine current shares were supplied; made-up or outdated share sets never unseal, the threshold of genuine current shares always does, and every value written earlier reads back; non-trivial = a rejected share-gated attempt followed by a share-less root-key rotation or a rekey before the seal")
 	defer rec.Flush()
 	rapid.Check(t, func(rt *rapid.T) {
+		defer recoverWedged(rec)
 		n := 2 + fairIndex(rt, "n", 4)
 		th := 2 + fairIndex(rt, "t", n-1)
 		tc, err := bootCore(t, coreOpts{shamir: true, shares: n, threshold: th, transactional: rapid.Bool().Draw(rt, "transactionalStorage")})
